@@ -215,16 +215,16 @@ def handleAnalysis : List String → Option String
       | some pth, some a, some b, some c, some rows =>
         toString (cost { pth := pth, A := a, B := b, C := c } rows)
       | _, _, _, _, _ => "ERR parse")
-  | ["fsscostle", pth, a, b, c, pth', a', b', c', rows, factor, slack] =>
-    -- is cost(θ) ≤ factor * cost(θ') + slack ?
-    some (match parseRat? pth, parseRat? a, parseRat? b, parseRat? c, parseRat? pth', parseRat? a',
-          parseRat? b', parseRat? c', parseRows? rows, parseRat? factor, parseRat? slack with
-      | some pth, some a, some b, some c, some pth', some a', some b', some c', some rows,
+  | ["fsscostle", pth, a, b, c, rows, pth', a', b', c', rows', factor, slack] =>
+    -- is cost(θ, rows) ≤ factor * cost(θ', rows') + slack ?  (rows carry the scale d**nu of their θ)
+    some (match parseRat? pth, parseRat? a, parseRat? b, parseRat? c, parseRows? rows, parseRat? pth',
+          parseRat? a', parseRat? b', parseRat? c', parseRows? rows', parseRat? factor, parseRat? slack with
+      | some pth, some a, some b, some c, some rows, some pth', some a', some b', some c', some rows',
         some factor, some slack =>
         let c1 := cost { pth := pth, A := a, B := b, C := c } rows
-        let c2 := cost { pth := pth', A := a', B := b', C := c' } rows
+        let c2 := cost { pth := pth', A := a', B := b', C := c' } rows'
         if c1 ≤ factor * c2 + slack then "le" else "gt"
-      | _, _, _, _, _, _, _, _, _, _, _ => "ERR parse")
+      | _, _, _, _, _, _, _, _, _, _, _, _ => "ERR parse")
   | ["fssrange", pl, pr, rows] =>
     -- truncation with the default limits keeps every row; prints kept count, min, max
     some (match parseRows? rows with
